@@ -14,6 +14,7 @@ import AcryoVerif.Model.Pose
 import AcryoVerif.Model.Rigid
 import AcryoVerif.Model.Loader
 import AcryoVerif.Model.Cache
+import AcryoVerif.Model.Pca
 
 /-! Dispatch of hand-written model operations for the line-protocol driver. -/
 namespace Model
@@ -367,6 +368,48 @@ def opLdsShape (a : Array Rat) : String :=
     if need then (Gen.buildMeshAxis a[1 + k]! u base).2.2.2 else base
   Canon.canon (side 0, side 1, side 2)
 
+/-- chop a flat list into rows of `w` -/
+def chop (w : Nat) : Nat → List Rat → Mat
+  | 0, _ => []
+  | n + 1, l => l.take w :: chop w n (l.drop w)
+
+/-- `pcaStats nimg nf mask(nf) imgs(nimg*nf)` → column sums and centred Gram matrix of the flat stack -/
+def opPcaStats (a : Array Rat) : String :=
+  let n := (i a 0).toNat
+  let nf := (i a 1).toNat
+  let l := a.toList.drop 2
+  let mask := l.take nf
+  let X := flatStack mask (chop nf n (l.drop nf))
+  Canon.canon (colSums nf X, (centredGram nf X).flatten)
+
+/-- `pcaTransform n nf k mask(nf) mean(nf) comps(k*nf) imgs(n*nf)`: `PcaClassifier.transform` -/
+def opPcaTransform (a : Array Rat) : String :=
+  let n := (i a 0).toNat
+  let nf := (i a 1).toNat
+  let k := (i a 2).toNat
+  let l := a.toList.drop 3
+  let mask := l.take nf
+  let mean := (l.drop nf).take nf
+  let comps := chop nf k (l.drop (2 * nf))
+  let X := flatStack mask (chop nf n (l.drop (2 * nf + k * nf)))
+  Canon.canon ((transform mean comps X).flatten)
+
+/-- `ravel Y X z y x` and `unravel Y X i` -/
+def opRavel (a : Array Rat) : String := Canon.canon (ravel (i a 0) (i a 1) (i a 2) (i a 3) (i a 4))
+def opUnravel (a : Array Rat) : String := Canon.canon (unravel (i a 0) (i a 1) (i a 2))
+
+/-- `withLabel ncols nrows labelcol nlabels labels(nlabels)`: frame with columns `c0..` whose entry
+`(c, r)` is `100*c + r`; the label column is called `c<labelcol>`. Prints the column names and values. -/
+def opWithLabel (a : Array Rat) : String :=
+  let ncols := (i a 0).toNat
+  let nrows := (i a 1).toNat
+  let df : Frame Int := (List.range ncols).map fun (c : Nat) =>
+    (s!"c{c}", (List.range nrows).map fun (r : Nat) => Int.ofNat (100 * c + r))
+  let labels := ((a.toList.drop 4).take (i a 3).toNat).map (·.floor)
+  match withColumn s!"c{i a 2}" labels df with
+  | .ok out => " ".intercalate (out.map fun c => c.1 ++ "=" ++ ",".intercalate (c.2.map toString))
+  | .error e => "err:" ++ toString e
+
 def dispatch (name : String) (a : Array Rat) : Option String :=
   match name with
   | "prepAffine" => some (flat (opPrepAffine a))
@@ -405,6 +448,11 @@ def dispatch (name : String) (a : Array Rat) : Option String :=
   | "batch" => some (opBatch a)
   | "cache" => some (opCache a)
   | "ldsShape" => some (opLdsShape a)
+  | "pcaStats" => some (opPcaStats a)
+  | "pcaTransform" => some (opPcaTransform a)
+  | "ravel" => some (opRavel a)
+  | "unravel" => some (opUnravel a)
+  | "withLabel" => some (opWithLabel a)
   | _ => none
 
 end Model
